@@ -554,7 +554,7 @@ def run(ctx):
             ctx.violation("C06/default-switch/%s" % key, "default of %s is %r, documented %r" % (key, snapshot.get(key), val))
     sweep(ctx, rng)
     if not ctx.enough():
-        for i in range(ctx.budget(60, 3000)):
+        for i in range(ctx.budget(60, 24000)):
             steps = isolation_history(ctx, rng, i, snapshot)
             if i < 2:
                 ctx.sample({"isolation history": steps})
